@@ -30,8 +30,8 @@ FWD = {"quick": [("full-dbg", []), ("full-rel", [])], "thorough": [("full-dbg", 
 
 PROBES = {"quick": [("full-dbg", [])], "thorough": [("full-dbg", []), ("full-rel", []), ("nofin-rel", []), ("min-dbg", [])]}
 CONTAINERS = {
-    "quick": [("full-dbg", ["--depth", "5"])],
-    "thorough": [("full-rel", ["--depth", "6", "--set", "full"]), ("full-dbg", ["--depth", "5", "--set", "full"]), ("nofin-rel", ["--depth", "5", "--set", "full"])],
+    "quick": [("full-dbg", ["--depth", "5"]), ("full-rel", ["--depth", "6", "--set", "full"])],
+    "thorough": [("full-rel", ["--depth", "8", "--set", "full"]), ("full-dbg", ["--depth", "6", "--set", "full"]), ("nofin-rel", ["--depth", "7", "--set", "full"]), ("full-rel", ["--depth", "6", "--set", "full", "--n", "3"])],
 }
 
 CHAIN = {"quick": [("full-dbg", ["--max-n", "24"])], "thorough": [("full-dbg", ["--max-n", "40"]), ("full-rel", ["--max-n", "40"])]}
